@@ -843,9 +843,10 @@ def compile_and_run(query_context, user_namespace, unit_test_mode=False):
     def LIKE(text, pattern):
         matcher = query_context.like_regex_cache.get(pattern, None)
         if matcher is None:
-            matcher = re.compile(like_to_regex(pattern))
+            matcher = re.compile(like_to_regex(pattern), re.DOTALL) # A line break inside a multi-line field is a character like any other
             query_context.like_regex_cache[pattern] = matcher
-        return matcher.match(text) is not None
+        match_obj = matcher.match(text)
+        return match_obj is not None and match_obj.end() == len(text) # "$" alone would also match before a trailing line break
 
     class UNNEST:
         def __init__(self, vals):
